@@ -341,7 +341,8 @@ CLAIM = {
     "text": "Sibling/constant agreement rules over every ComparableEncode impl and key writer (sign-spread shift = BITS-1, "
             "big-endian + sign-bit flip, false<true byte, null marker order, DESC inversion on the valid path), decided on MIR for all "
             "instances. Right level: ORDER BY correctness over all inputs reduces, for the encoding layer, to these finitely many "
-            "constants; value-level sorting behaviour cannot be decided statically.",
+            "constants; value-level sorting behaviour cannot be decided statically. Plus the index-space discipline of SortLayout in the "
+            "sort/merge code (key positions vs heap-layout positions are never mixed).",
     "note": "trusted: rustc MIR; assumes the key comparison is bytewise memcmp over these encodings (read in sort code); does not decide merge/limit logic",
     "technique": "static analysis: MIR constant/sibling-agreement rules + must-pass-through (rustc_private driver)",
 }
